@@ -1,15 +1,31 @@
 #!/usr/bin/env python3
 """Apply every seeded/<id>/patch.diff to /repo in turn, run the quick check of its own
 property (and of the properties listed in EXTRA), record the outcome in meta.json, revert.
-usage: tools/seedmatrix.py [id-prefix ...]"""
+usage: tools/seedmatrix.py [--copy] [--seeds 1,2,3] [--own] [id-prefix ...]
+  --copy   work on a scratch copy of /repo (VERIF_REPO) instead of /repo itself, so that other
+           checks can run meanwhile; results go to stdout only (meta.json is not rewritten)
+  --seeds  run each check at several VERIF_SEED values
+  --own    only the seeded change's own property"""
 import json, os, subprocess, sys, glob
 ROOT = os.path.dirname(os.path.dirname(os.path.abspath(__file__)))
 EXTRA = {"C01-2A": ["C03", "C06"], "C02-2A": ["C01", "C06"], "C03-2A": ["C01", "C06"], "C04-2A": ["C13"], "C13-2B": ["C04"], "C05-2A": ["C01"], "C05-2B": ["C01"], "C06-2A": ["C02", "C01"], "C06-2B": ["C15"], "C07-2A": [], "C08-2A": ["C17"], "C17-2A": ["C08"], "C11-2A": ["C10", "C12"], "C12-2B": ["C10", "C11"], "C01-B": ["C05", "C03"], "C03-A": ["C05"], "C05-A": ["C03"], "C05-B": ["C03"], "C09-A": ["C08"], "C09-B": ["C08"], "C08-A": ["C17"], "C08-B": ["C09"], "C10-B": ["C11"], "C11-B": ["C10", "C12"], "C12-A": ["C11"], "C12-B": ["C11"]}
 def sh(cmd, **kw):
     return subprocess.run(cmd, shell=True, stdout=subprocess.PIPE, stderr=subprocess.STDOUT, text=True, **kw)
 os.environ["VERIF_EVIDENCE_DIR"] = "/tmp/verif-mut-evidence"  # never clobber the committed evidence
-sel = sys.argv[1:]
-if sh("git -C /repo diff --quiet").returncode != 0:
+args = sys.argv[1:]
+COPY = "--copy" in args
+OWN = "--own" in args
+seeds = ["1"]
+if "--seeds" in args:
+    seeds = args[args.index("--seeds") + 1].split(",")
+    del args[args.index("--seeds"):args.index("--seeds") + 2]
+sel = [a for a in args if not a.startswith("--")]
+REPO = "/repo"
+if COPY:
+    REPO = "/tmp/verif-mut-repo-%d" % os.getpid()
+    sh("rm -rf %s && mkdir -p %s && rsync -a --exclude .git --exclude cmd /repo/ %s/ && cd %s && git init -q . && git add -A && git -c user.email=a@b -c user.name=x commit -qm base" % (REPO, REPO, REPO, REPO))
+    os.environ["VERIF_REPO"] = REPO
+elif sh("git -C /repo diff --quiet").returncode != 0:
     print("repo dirty"); sys.exit(2)
 rows = []
 for d in sorted(glob.glob(os.path.join(ROOT, "seeded", "*"))):
@@ -17,17 +33,22 @@ for d in sorted(glob.glob(os.path.join(ROOT, "seeded", "*"))):
     if sel and not any(k.startswith(s) for s in sel):
         continue
     meta = json.load(open(d + "/meta.json"))
-    if sh("git -C /repo apply %s/patch.diff" % d).returncode != 0:
+    if sh("git -C %s apply %s/patch.diff" % (REPO, d)).returncode != 0:
         print(k, "PATCH DOES NOT APPLY"); continue
     try:
         res = {}
-        for pid in [meta["property"]] + EXTRA.get(k, []):
-            r = sh("cd %s && ./check %s --tier quick" % (ROOT, pid))
-            viol = [l for l in r.stdout.splitlines() if l.startswith("VIOLATION")]
-            res[pid] = {"exit": r.returncode, "violation_lines": len(viol)}
-        meta["detected_by"] = res
-        meta["ran"] = "git -C /repo apply seeded/%s/patch.diff; ./check <id> --tier quick (VERIF_SEED=1); git -C /repo checkout -- ." % k
-        json.dump(meta, open(d + "/meta.json", "w"), indent=1)
+        for pid in [meta["property"]] + ([] if OWN else EXTRA.get(k, [])):
+            for sd in seeds:
+                r = sh("cd %s && VERIF_SEED=%s ./check %s --tier quick" % (ROOT, sd, pid))
+                viol = [l for l in r.stdout.splitlines() if l.startswith("VIOLATION")]
+                key = pid if len(seeds) == 1 else "%s@seed%s" % (pid, sd)
+                res[key] = {"exit": r.returncode, "violation_lines": len(viol)}
+        if not COPY and len(seeds) == 1:
+            meta["detected_by"] = res
+            meta["ran"] = "git -C /repo apply seeded/%s/patch.diff; ./check <id> --tier quick (VERIF_SEED=1); git -C /repo checkout -- ." % k
+            json.dump(meta, open(d + "/meta.json", "w"), indent=1)
         print(k, {p: v["exit"] for p, v in res.items()}, flush=True)
     finally:
-        sh("git -C /repo checkout -- .")
+        sh("git -C %s checkout -- ." % REPO)
+if COPY:
+    sh("rm -rf %s" % REPO)
